@@ -131,7 +131,7 @@ fn render_field(f: &Field, m: &Module, indent: &str, out: &mut String) {
 
 fn generics_decl(td: &TypeDef, m: &Module) -> String {
     let mut all: Vec<String> = td.lifetimes.clone();
-    let consts: Vec<String> = td.consts.iter().map(|c| if td.const_default && !td.const_first { format!("const {c}: usize = 2") } else { format!("const {c}: usize") }).collect();
+    let consts: Vec<String> = td.consts.iter().map(|c| if td.const_default && !td.const_first { format!("const {c}: usize = 3") } else { format!("const {c}: usize") }).collect();
     let tys: Vec<String> = td
         .params
         .iter()
@@ -216,7 +216,9 @@ pub fn render_type(td: &TypeDef, m: &Module) -> String {
         ts.push(format!("type = {}", lit(t)));
     }
     let concrete: Vec<String> = td.params.iter().filter_map(|p| p.concrete.as_ref().map(|c| format!("{} = {}", p.name, render_ty(c, m)))).collect();
-    if !concrete.is_empty() {
+    // two concretised parameters: in one list, or split over two attributes (by identifier length)
+    let split_concrete = concrete.len() >= 2 && td.ident.len() % 3 != 0;
+    if !concrete.is_empty() && !split_concrete {
         ts.push(format!("concrete({})", concrete.join(", ")));
     }
     if !m.serde {
@@ -227,6 +229,11 @@ pub fn render_type(td: &TypeDef, m: &Module) -> String {
     }
     if !ts.is_empty() {
         out.push_str(&format!("    #[ts({})]\n", ts.join(", ")));
+    }
+    if split_concrete {
+        for c in &concrete {
+            out.push_str(&format!("    #[ts(concrete({c}))]\n"));
+        }
     }
     let g = generics_decl(td, m);
     match &td.body {
